@@ -567,6 +567,8 @@ def _(p):
     d2["z"] = [numpy.nan if k in cc.Z_NULLS_D2 else 10.0 + k for k in range(n)]
     d1["x 1"] = [v * 0.5 - 1.25 for v in _B_TRAIN]
     d2["x 1"] = [v * 2.0 + 7.5 for v in _A_TRAIN]
+    d1["x_1"] = [v * 1.5 + 0.25 for v in _A_TRAIN]
+    d2["x_1"] = [v * 0.5 - 2.0 for v in _B_TRAIN]
 
     def same(u, v):
         u, v = float(u), float(v)
